@@ -71,7 +71,9 @@ func c17Scenarios(tier string) []*Scenario {
 					} else {
 						n := NewNet(w, "T")
 						n.Peer = DefaultPeer()
-						n.ServerCtx = func(ctx context.Context) context.Context { return context.WithValue(ctx, IvalKey{}, "set-by-interceptor") }
+						n.ServerCtx = func(ctx context.Context) context.Context {
+							return context.WithValue(ctx, IvalKey{}, "set-by-interceptor")
+						}
 						cfg.Net = n
 						h := grpctunnel.NewTunnelServiceHandler(grpctunnel.TunnelServiceHandlerOptions{
 							OnReverseTunnelOpen: func(ch grpctunnel.TunnelChannel) {
@@ -103,6 +105,14 @@ func c17Scenarios(tier string) []*Scenario {
 					}
 					w.Join(w.StartCallers(t, []Workload{mk("r1", 1, true), mk("r2", 2, true)})...)
 					w.Join(w.StartCallers(t, []Workload{mk("r3", 3, false)})...)
+					// an RPC without any request metadata: its handler must see none - in particular
+					// not the metadata of the tunnel-opening call
+					nomd := StdWorkload("r4", 4, "Bidi", []int{3}, []int{3})
+					nomd.Call.NoScriptKey = true
+					nomd.Handler.Ops = append([]HOp{{K: "readctx"}}, nomd.Handler.Ops...)
+					hs := nomd.Handler
+					w.Scripts["*"] = &hs
+					w.Join(w.Go("caller:r4", true, func() { w.RunCall(t.Conn, &nomd.Call) }))
 					if mode == "N" {
 						t.Ch.Close()
 						w.Drain()
@@ -125,6 +135,11 @@ func c17Scenarios(tier string) []*Scenario {
 						want = metadata.MD{}
 					}
 					want.Set("grpctunnel-negotiate", "on")
+					for _, e := range w.EventsOf("handler:r4") {
+						if e.Op == "ctx" && !strings.HasPrefix(e.Detail, "md={} ") {
+							bad("request-metadata", "ident:request-metadata-leak", "an RPC without request metadata was handed: "+e.Detail)
+						}
+					}
 					for _, id := range []string{"r1", "r2", "r3"} {
 						var ctxEv *Event
 						he := w.EventsOf("handler:" + id)
@@ -248,6 +263,6 @@ func c17Scenarios(tier string) []*Scenario {
 
 func init() {
 	register(&PropDef{ID: "C17", Level: "exploration",
-		Rule: "tunnel modes {forward, reverse, forward nested in forward} x opening metadata {absent, a:[1], a:[1,2] b-bin:[..]} with a peer and an interceptor-set context value; two concurrent RPCs whose handlers and callers mutate every map returned by TunnelMetadataFromIncomingContext / TunnelMetadataFromOutgoingContext / metadata.FromIncomingContext, then a third RPC; 2-3 reverse tunnels behind one pooled channel with WithTunnelChannel and TunnelChannelFromContext; all schedules with <= 1 (quick) / 2 (thorough) deviations; oracle: accessor values equal the scripted opening values in every RPC before and after the mutations; reported channel == channel whose serving instance ran the handler",
+		Rule:      "tunnel modes {forward, reverse, forward nested in forward} x opening metadata {absent, a:[1], a:[1,2] b-bin:[..]} with a peer and an interceptor-set context value; two concurrent RPCs whose handlers and callers mutate every map returned by TunnelMetadataFromIncomingContext / TunnelMetadataFromOutgoingContext / metadata.FromIncomingContext, then a third RPC; 2-3 reverse tunnels behind one pooled channel with WithTunnelChannel and TunnelChannelFromContext; all schedules with <= 1 (quick) / 2 (thorough) deviations; oracle: accessor values equal the scripted opening values in every RPC before and after the mutations; reported channel == channel whose serving instance ran the handler",
 		Scenarios: c17Scenarios})
 }
